@@ -191,7 +191,14 @@ func ferun(c *Ctx) {
 	}
 	for pi := 0; pi < nproj; pi++ {
 		g := &proj.Gen{R: r, BadSigs: r.Chance(1, 2), Imports: true, TagShapes: r.Chance(1, 3), Platform: pi%2 == 1 || r.Chance(1, 3)}
+		if c.Prop == "C07" {
+			g.Collisions = true // end to end: a colliding magefile must make mage exit 1 and name the definitions
+		}
 		p := g.Generate(1000 + pi)
+		if c.Prop == "C07" {
+			injectCollision(r, p)
+			lines = 6
+		}
 		dir := filepath.Join(c.Tmp, fmt.Sprintf("run%d", pi))
 		writeProject(dir, p)
 		fields := commentFields(p)
@@ -208,7 +215,7 @@ func ferun(c *Ctx) {
 		cr := runCmd(dir, env, mageBin, "-compile", static)
 		if cr.status != 0 {
 			// not buildable: report (the oracle says whether the package should have been rejected)
-			c.Emit(J{"op": "fe.run", "project": p, "fields": fields, "words": []string{}, "conv": J{}}, J{"build": classifyMsg(strings.TrimPrefix(cr.stderr, "Error: "))}, "not-built")
+			c.Emit(J{"op": "fe.run", "project": p, "fields": fields, "words": []string{}, "conv": J{}}, J{"build": classifyMsg(strings.TrimPrefix(cr.stderr, "Error: ")), "status": cr.status}, "not-built")
 			os.RemoveAll(dir)
 			continue
 		}
